@@ -325,3 +325,67 @@ Example C17_merge_never_relaxes_nonvacuous :
   let a := {| s_read := (true, 0); s_rhdr := (true, 20); s_write := (false, 0); s_idle := (true, 7); s_maxhdr := 0 |} in
   site_ok a /\ honours 5 20 = true /\ honours 0 20 = false /\ honours 30 20 = false.
 Proof. cbv zeta. unfold site_ok. cbn. repeat split; lia. Qed.
+
+(* ---- EVERY server object NewServer creates for one listener ---- *)
+(* [new_servers] follows NewServer statement by statement: timeouts, header limit, then — TLS sites, HTTP/2 on,
+   QUIC flag set — the HTTP/3 server as a copy of the TCP server's MaxHeaderBytes AT THAT MOMENT.  The TCP server
+   is [new_server] (every theorem above applies to it) and the HTTP/3 server carries the same header limit: the
+   strictest one the sites configure.  (C17-m8 merges the header limit after the copy: the HTTP/3 server keeps 0 =
+   the library's 1 MiB.) *)
+Theorem C17_all_servers_same_header_limit :
+  forall dflt g tls h2 quic sv h3,
+  new_servers dflt g tls h2 quic = (sv, Some h3) ->
+  sv = new_server dflt g /\ h3_maxhdr h3 = sv_maxhdr sv /\
+  ((forall c, In c g -> 0 <= s_maxhdr c) -> h3_maxhdr h3 = merge_header_limit (map s_maxhdr g)).
+Proof. exact all_servers_same_header_limit. Qed.
+Print Assumptions C17_all_servers_same_header_limit.
+
+Example C17_all_servers_same_header_limit_nonvacuous :
+  new_servers dflt_srv [site_idle7] true true true =
+  ({| sv_read := 100; sv_rhdr := 100; sv_write := 200; sv_idle := 7; sv_maxhdr := 2048 |},
+   Some {| h3_maxhdr := 2048; h3_idle := 0 |}).
+Proof. vm_compute. reflexivity. Qed.
+
+Theorem C17_tcp_server_is_new_server :
+  forall dflt g tls h2 quic, fst (new_servers dflt g tls h2 quic) = new_server dflt g.
+Proof. exact new_servers_tcp. Qed.
+Print Assumptions C17_tcp_server_is_new_server.
+
+Theorem C17_h3_server_exists_iff :
+  forall dflt g tls h2 quic,
+  snd (new_servers dflt g tls h2 quic) <> None <-> (tls = true /\ h2 = true /\ quic = true).
+Proof. exact new_servers_h3_exists. Qed.
+Print Assumptions C17_h3_server_exists_iff.
+
+(* "all servers of one listener carry the same merged limits" holds for the header limit (above) and is REFUTED
+   for the idle timeout (F-C17-7): NewServer never gives the HTTP/3 server a QUICConfig, so its idle timeout is
+   the library default whatever `timeouts idle` the sites configure *)
+Theorem C17_all_servers_same_idle_timeout_refuted :
+  exists dflt g sv h3, new_servers dflt g true true true = (sv, Some h3) /\
+    set_values (map s_idle g) = [7] /\ sv_idle sv = 7 /\ h3_maxhdr h3 = 2048 /\ h3_idle h3 = 0.
+Proof. exact h3_idle_timeout_refuted. Qed.
+Print Assumptions C17_all_servers_same_idle_timeout_refuted.
+
+(* ---- sequences of uploads on one site whose proxy upstream counts failures ---- *)
+(* Every request of a sequence is answered exactly as it would be alone — 413 over the limit, the backend's 200
+   otherwise — and the upstream's failure counter stays 0: an upload the limit cut off is not a failure of the
+   backend, so in-limit uploads that follow within fail_timeout still arrive.  (C17-m5 maps the too-large error
+   to 413 only after the failure accounting: the over-limit upload takes the backend down and the next in-limit
+   upload is answered 502 without reaching it.) *)
+Theorem C17_upload_sequence_independent :
+  forall k limit mf qs, 1 <= mf ->
+  seq_run k limit mf 0 qs = map (fun q : bool * nat => (if limit <? Z.of_nat (snd q) then 413 else 200, 0)) qs.
+Proof. exact upload_sequence_independent. Qed.
+Print Assumptions C17_upload_sequence_independent.
+
+Example C17_upload_sequence_independent_nonvacuous :
+  seq_run ProxyStream 10 1 0 [(true, 11%nat); (false, 10%nat); (false, 12%nat); (true, 3%nat)] =
+  [(413, 0); (200, 0); (413, 0); (200, 0)] /\
+  (* were the too-large error counted, the second upload would find the backend down *)
+  seq_step ProxyStream 10 1 1 false 10 = (502, 1).
+Proof. vm_compute. split; reflexivity. Qed.
+
+Theorem C17_too_large_never_counted_as_failure :
+  forall bs, proxy_after_forward (Some TooLarge) bs = (413, false).
+Proof. exact too_large_never_counted. Qed.
+Print Assumptions C17_too_large_never_counted_as_failure.
